@@ -58,7 +58,7 @@ def nodes_where(cfg: CFG, pred: Callable[[Node], bool]) -> List[int]:
 
 
 def escape_path(cfg: CFG, start: int, via: Set[int], bad: Set[int], first_labels_skip=("exc", "abandon"),
-                skip_labels=()) -> Optional[List[int]]:
+                skip_labels=(), edge_ok=None) -> Optional[List[int]]:
     """Search a path from `start` (leaving it by an edge whose label is not in first_labels_skip)
     that reaches a node in `bad` without passing through a node in `via`.  None if no such path."""
     prev = {}
@@ -81,6 +81,8 @@ def escape_path(cfg: CFG, start: int, via: Set[int], bad: Set[int], first_labels
             return list(reversed(path))
         for b, l in cfg.succ[a]:
             if l in skip_labels:
+                continue
+            if edge_ok is not None and not edge_ok(a, b, l):
                 continue
             if b in via or b in seen:
                 continue
